@@ -215,3 +215,12 @@ Proof.
   split; [apply Inv_init|]. split; [intros x w H; discriminate H|].
   eexists. eexists. vm_compute. reflexivity.
 Qed.
+
+(* Third sentence of the property, for any store and any outputs (the compile model): the MIR carries the RECORDED
+   types — every table entry is the image of a stored record with its type, every output has the type recorded for
+   the operation it names, every input entry the type recorded for its input operation.  With the coherence and
+   edge theorems above (which speak about the store) this carries them to the MIR. *)
+Theorem C05_mir_carries_the_recorded_types : forall st couts m fs',
+  compile st [] couts = Ok (m, fs') -> mir_carries_recorded_types st couts m.
+Proof. exact compile_carries_recorded_types. Qed.
+Print Assumptions C05_mir_carries_the_recorded_types.
